@@ -101,6 +101,21 @@ func NewGraph(fn *Func) *Graph {
 			}
 			ns = append(ns, n)
 		}
+		// a negated branch condition is presented without the negation, its edges exchanged:
+		// `if !X {A} else {B}` and `if X {B} else {A}` give the same graph
+		if len(b.Succs) == 2 && len(ns) > 0 && b.Succs[0].Kind != cfg.KindSwitchCaseBody && b.Succs[0].Kind != cfg.KindRangeBody && b.Succs[0].Kind != cfg.KindSelectCaseBody {
+			if e, isE := ns[len(ns)-1].(ast.Expr); isE {
+				for {
+					u, isU := ast.Unparen(e).(*ast.UnaryExpr)
+					if !isU || u.Op != token.NOT {
+						break
+					}
+					e = ast.Unparen(u.X)
+					b.Succs[0], b.Succs[1] = b.Succs[1], b.Succs[0]
+				}
+				ns[len(ns)-1] = e
+			}
+		}
 		g.nodes[b] = ns
 		for _, s := range b.Succs {
 			if s.Live {
